@@ -11,7 +11,7 @@ from props.c04 import setup, schedule_strategy
 
 PROPERTY = 'C13'
 LEVEL = 'exploration'
-RULE = ('case = (API in {pmap, piter, piter_fn, piter_multiplex, MultiplexIterator}, parallelism 0..3, buffer 0..3, 1..3 input '
+RULE = ('case = (API in {pmap, piter, piter_fn, piter_multiplex, MultiplexIterator, in-process MultiplexIterator over a thread-fed queue}, parallelism 0..3, buffer 0..3, 1..3 input '
         'generators of length 0..5 with return values, outcome in {exhaust, stop after m elements (num_steps or maybe_stop), an '
         'input raises at position p, the mapped function raises on a value}, generated schedule on the deterministic scheduler with '
         'a shim executor); oracle: on exhaustion multiset(outputs) == multiset(sequential evaluation) and the generators\' return '
@@ -64,6 +64,11 @@ def run_case(case):
       res = iter_utils.piter_fn(itfn, input_iterable=ins[0], thread_pool=pool, parallism=par, buffer_size=buf)
     elif api == 'piter_multiplex':
       res = iter_utils.piter_multiplex(ins, pool, buffer_size=buf)
+    elif api == 'mux_over_queue':
+      # an in-process MultiplexIterator (parallism=0) whose single source is a queue fed by helper threads: stopping the
+      # iterator must reach the queue, or its producers stay parked on the full buffer
+      info['inner'] = iter_utils.piter_multiplex(ins, pool, buffer_size=buf)
+      res = iter_utils.MultiplexIterator(data_sources=[info['inner']], parallism=0, name='mxq')
     else:
       res = iter_utils.MultiplexIterator(data_sources=[list(x) if False else x for x in ins], iter_fn=itfn, parallism=par, name='mx')
     info['res'] = res
@@ -100,13 +105,13 @@ def run_case(case):
   sequential = [i * 10 + k + 100 for i, n in enumerate(lens) for k in range(n)]
   if api in ('pmap', 'piter_fn'):
     sequential = [k + 100 for k in range(lens[0])]
-  if api == 'piter_multiplex':
+  if api in ('piter_multiplex', 'mux_over_queue'):
     sequential = [i * 10 + k for i, n in enumerate(lens) for k in range(n)]
   cnt = collections.Counter(out)
   check(all(v == 1 for v in cnt.values()), 'element-delivered-twice', f'{what}: outputs {out}')
   check(all(x in sequential for x in out), 'element-invented', f'{what}: outputs {out}, sequential {sequential}')
   fails = oc['kind'] == 'fail_input' and oc['p'] < lens[oc['i']] and not (api in ('pmap', 'piter_fn') and oc['i'] != 0) or (
-      oc['kind'] == 'fail_fn' and api != 'piter_multiplex' and poison is not None and (poison - 0) in [x - 100 for x in sequential])
+      oc['kind'] == 'fail_fn' and api not in ('piter_multiplex', 'mux_over_queue') and poison is not None and (poison - 0) in [x - 100 for x in sequential])
   if oc['kind'] == 'exhaust' or (oc['kind'] in ('fail_input', 'fail_fn') and not fails):
     check('error' not in info, 'unexpected-error', lambda: f'{what}: {info["error"]!r}')
     check(sorted(out) == sorted(sequential), 'parallel-output-differs-from-sequential', f'{what}: outputs {sorted(out)}, sequential {sorted(sequential)}')
@@ -155,10 +160,12 @@ def _chain(e):
 def strat(tier):
   @st.composite
   def s(draw):
-    api = draw(st.sampled_from(['pmap', 'piter', 'piter_fn', 'piter_multiplex', 'MultiplexIterator']))
-    lens = draw(st.lists(st.integers(0, 5), min_size=1, max_size=1 if api in ('pmap', 'piter_fn') else 3))
-    par = draw(st.integers(1 if api in ('piter_multiplex',) else 0, 3))
+    api = draw(st.sampled_from(['pmap', 'piter', 'piter_fn', 'piter_multiplex', 'MultiplexIterator', 'mux_over_queue']))
+    lens = draw(st.lists(st.integers(0, 5), min_size=1, max_size=1 if api in ('pmap', 'piter_fn') else (4 if api in ('piter_multiplex', 'mux_over_queue') else 3)))
+    par = draw(st.integers(1 if api in ('piter_multiplex', 'mux_over_queue') else 0, 3))
     kinds = ['exhaust', 'exhaust', 'stop_after', 'fail_input', 'fail_fn']
+    if api == 'mux_over_queue':
+      kinds = ['exhaust', 'stop_after', 'stop_after', 'fail_input']
     if api == 'piter' and len(lens) >= 2:
       # piter() over several inputs nests a second (input) queue that its result offers no way to stop: early stop and
       # downstream failure are only defined for results that are Stoppable themselves
@@ -169,7 +176,7 @@ def strat(tier):
     if kind == 'exhaust':
       oc = {'kind': kind}
     elif kind == 'stop_after':
-      oc = {'kind': kind, 'm': draw(st.integers(0, 6)), 'how': draw(st.sampled_from(['num_steps', 'maybe_stop']))}
+      oc = {'kind': kind, 'm': draw(st.integers(0, 6)), 'how': 'maybe_stop' if api == 'mux_over_queue' else draw(st.sampled_from(['num_steps', 'maybe_stop']))}
     elif kind == 'fail_input':
       i = draw(st.integers(0, len(lens) - 1))
       oc = {'kind': kind, 'i': i, 'p': draw(st.integers(0, 5)), 'exc': draw(st.sampled_from(['ValueError', 'KeyError', 'InjectedError']))}
